@@ -252,6 +252,18 @@ def run_parse(req):
         out["table"] = {"types": {n: tclass(Options.directive_types.get(n)) for n in Options._directive_defaults},
                         "scopes": {n: list(v) if isinstance(v, (tuple, list)) else [v]
                                    for n, v in Options.directive_scopes.items()}}
+    if req.get("sweep_texts"):
+        # every name a directive string can reach x a few texts, both ways parse_directive_list is called
+        out["sweep"] = []
+        for name in sorted(Options._directive_defaults):
+            for t in req["sweep_texts"]:
+                for relaxed, ign in ((False, True), (True, False)):
+                    try:
+                        o = ["ok", _jsonable(Options.parse_directive_list("%s=%s" % (name, t), relaxed_bool=relaxed,
+                                                                           ignore_unknown=ign))]
+                    except BaseException as e:
+                        o = ["exc", type(e).__name__]
+                    out["sweep"].append([name, t, relaxed, o])
     return out
 
 
